@@ -187,6 +187,10 @@ fn single_opcode_covenants() -> Vec<(String, Bytes)> {
     for (name, std) in [("legacy-sig", cov_legacy(0)), ("new-sig", cov_new(1))] {
         let ops = std.to_ops();
         v.push((format!("standard {}", name), std.to_bytes()));
+        // the standard covenant followed by further instructions (begins like it, weighs more)
+        let mut longer = ops.clone();
+        longer.extend([Loop(60000, 2), PushIC(1u8.into()), Hash(65535), And]);
+        v.push((format!("standard {} followed by a heavy tail", name), Covenant::from_ops(&longer).to_bytes()));
         for i in 0..ops.len() {
             let alts: Vec<OpCode> = match &ops[i] {
                 SigEOk(_) => [0u16, 31, 33, 65535].iter().map(|n| SigEOk(*n)).collect(),
